@@ -67,6 +67,82 @@ def alias_checks():
             "assumptions": ["alias equivalence is checked only on this bounded family"]}
 
 
+def wrapper_checks():
+    """Documented (specific-types-behavior.rst): "All NewType's are treated as origin types", "Final, Annotated, ClassVar and InitVar
+    are processed the same as wrapped types", "LiteralString: same behavior as builtin one's of str", "Any and object: value is
+    passed as is"; PEP 695 aliases and forward references denote the aliased type.  The unwrapping providers are reflection over live
+    typing objects (outside the contracts): bounded check that the loader / dumper of the wrapped spelling behaves exactly like the one
+    of the bare type on the representative of EVERY cell of D, in all six configurations, nested inside a list too."""
+    import dataclasses
+    import re
+    import typing
+    from decimal import Decimal
+
+    from adaptix import DebugTrail, Retort
+    from pyvc.universe import CELL_NAMES, N_CELLS, rep
+    UserId = typing.NewType("UserId", int)
+    Price = typing.NewType("Price", Decimal)
+    Inner = typing.NewType("Inner", UserId)
+    ns = {"Decimal": Decimal}
+    exec("type AliasInt = int\ntype AliasList = list[Decimal]", ns)    # PEP 695 (CPython 3.12)
+    bases = {"int": int, "Decimal": Decimal, "list[Decimal]": typing.List[Decimal], "str": str, "Optional[int]": typing.Optional[int]}
+    spellings = [
+        ("NewType(int)", UserId, "int"), ("NewType(Decimal)", Price, "Decimal"), ("NewType(NewType(int))", Inner, "int"),
+        ("Annotated[int, 'meta']", typing.Annotated[int, "meta"], "int"), ("Annotated[Decimal, 1, 2]", typing.Annotated[Decimal, 1, 2], "Decimal"),
+        ("Annotated[list[Decimal], 'x']", typing.Annotated[typing.List[Decimal], "x"], "list[Decimal]"),
+        ("list[Annotated[Decimal, 'x']]", typing.List[typing.Annotated[Decimal, "x"]], "list[Decimal]"),
+        ("Final[int]", typing.Final[int], "int"), ("ClassVar[Decimal]", typing.ClassVar[Decimal], "Decimal"),
+        ("InitVar[int]", dataclasses.InitVar[int], "int"), ("type AliasInt = int", ns["AliasInt"], "int"),
+        ("type AliasList = list[Decimal]", ns["AliasList"], "list[Decimal]"), ("LiteralString", typing.LiteralString, "str"),
+        ("Optional[NewType(int)]", typing.Optional[UserId], "Optional[int]"),
+    ]
+    viol, n = [], 0
+
+    def outcome(fn, x):
+        try:
+            r = fn(x)
+            return ("ret", type(r).__name__, re.sub(r" at 0x[0-9a-f]+", "", repr(r))[:80])     # fresh representatives: no addresses
+        except Exception as e:  # noqa: BLE001
+            return ("raise", type(e).__name__)
+    dump_values = {"int": [0, 7, True], "Decimal": [Decimal("1.5"), Decimal("NaN")], "list[Decimal]": [[Decimal("1")], []], "str": ["a", ""],
+                   "Optional[int]": [None, 3]}
+    for (label, tp, base), strict, dt in itertools.product(spellings, (True, False), DebugTrail):
+        retort = Retort(strict_coercion=strict, debug_trail=dt)
+        for kind in ("load", "dump"):
+            n += 1
+            try:
+                fw = retort.get_loader(tp) if kind == "load" else retort.get_dumper(tp)
+                fb = retort.get_loader(bases[base]) if kind == "load" else retort.get_dumper(bases[base])
+            except Exception as e:  # noqa: BLE001
+                viol.append({"unit": "wrapped type hints", "clause": "wrapper-created", "witness": f"{kind} {label}",
+                             "w": {"input": label, "native_outcome": f"{type(e).__name__}: {str(e)[:200]}"}})
+                continue
+            inputs = ([(CELL_NAMES[i], (lambda i=i: rep(i))) for i in range(N_CELLS)] if kind == "load"
+                      else [(repr(v), (lambda v=v: v)) for v in dump_values[base]])
+            for iname, mk in inputs:
+                ow, ob = outcome(fw, mk()), outcome(fb, mk())
+                if ow != ob:
+                    viol.append({"unit": "wrapped type hints", "clause": "wrapper-behaves-like-wrapped-type",
+                                 "witness": f"{kind} {label} strict={strict} {dt.name} {iname}"[:160],
+                                 "w": {"input": f"{kind} cell {iname} as {label}"[:300],
+                                       "native_outcome": f"{ow!r}, but as {base} it gives {ob!r}"[:300]}})
+    for tp, strict, dt in itertools.product((typing.Any, object), (True, False), DebugTrail):
+        retort = Retort(strict_coercion=strict, debug_trail=dt)
+        ld, dm = retort.get_loader(tp), retort.get_dumper(tp)
+        for i in range(N_CELLS):
+            n += 1
+            x = rep(i)
+            if ld(x) is not x or dm(x) is not x:
+                viol.append({"unit": "wrapped type hints", "clause": "any-object-as-is", "witness": f"{tp!r} strict={strict} {dt.name} {CELL_NAMES[i]}",
+                             "w": {"input": f"cell {CELL_NAMES[i]} as {tp!r}", "native_outcome": "the value was not passed as is"}})
+    return {"obligations": 0, "discharged": 0, "violations": viol[:40], "solver_time": 0.0,
+            "bounded": [{"unit": "NewType / Annotated / Final / ClassVar / InitVar / PEP 695 alias / LiteralString vs the wrapped type; Any and object as is",
+                         "bound": f"{len(spellings)} spellings x strict / lax x 3 debug-trail modes x (every cell of D for loading, listed values for "
+                                  f"dumping); {n} comparisons"}],
+            "samples": [{"wrapper_comparisons": n, "failed": len(viol)}],
+            "assumptions": ["wrapper equivalence is checked only on this bounded family (typing reflection is outside the contracts)"]}
+
+
 def extra_checks(tier, seed):
     from genprog.check import extra_for_property
-    return [extra_for_property("C02", tier, seed), alias_checks()]
+    return [extra_for_property("C02", tier, seed), alias_checks(), wrapper_checks()]
